@@ -28,6 +28,12 @@ def verdict (m : Mon) : String :=
 def expectedAvail (m : Mon) : Nat :=
   m.cap - 1 - (m.slot.filter fun e => e.2.2 == false).length
 
+/-- the connection on which token `t` was requested (tokens are unique per run) -/
+def connOfToken (s : S) (t : Nat) : Nat :=
+  match s.mons.find? (fun e => (e.2.sent.any (·.1 == t)) || (e.2.slot.any (·.2.1 == t))) with
+  | some (k, _) => k
+  | none => 0
+
 def step (s : S) (ws : List String) : S × String :=
   match ws with
   | ["reset", cap] => match cap.toNat? with
@@ -42,20 +48,36 @@ def step (s : S) (ws : List String) : S × String :=
           let m := (getMon s k).step (.req sid.toNat tok)
           (setMon s k m, verdict m)
       | _, _, _ => (s, "bad-op")
-  | ["resp", conn, st, t] => match conn.toNat?, st.toNat?, t.toNat? with
-      | some k, some sid, some tok =>
-        let m := (getMon s k).step (.resp sid tok)
+  | ["resp", conn, st, t, kd, w] => match conn.toNat?, st.toNat?, t.toNat?, kd.toNat?, w.toNat? with
+      | some k, some sid, some tok, some kind, some cont =>
+        let m := (getMon s k).step (.resp sid tok kind cont)
+        (setMon s k m, verdict m)
+      | _, _, _, _, _ => (s, "bad-op")
+  | ["got", _, t, kd, u] => match t.toNat?, kd.toNat?, u.toNat? with
+      | some a, some kind, some b =>
+        let k := connOfToken s a
+        let m := (getMon s k).step (.got a kind b)
         (setMon s k m, verdict m)
       | _, _, _ => (s, "bad-op")
-  | ["got", conn, t, u] => match conn.toNat?, t.toNat?, u.toNat? with
-      | some k, some a, some b =>
-        let m := (getMon s k).step (.got a b)
+  | ["stray", conn, st] => match conn.toNat?, st.toNat? with
+      | some k, some sid =>
+        let m := (getMon s k).step (.stray sid)
         (setMon s k m, verdict m)
-      | _, _, _ => (s, "bad-op")
+      | _, _ => (s, "bad-op")
+  | ["event", conn] => match conn.toNat? with
+      | some k =>
+        let m := (getMon s k).step .event
+        (setMon s k m, verdict m)
+      | none => (s, "bad-op")
   | ["avail", conn] => match conn.toNat? with
       | some k => (s, toString (expectedAvail (getMon s k)))
       | none => (s, "bad-op")
   | ["calls", a] => (s, a)      -- every started call must have returned exactly once: answer = number started
+  -- a connection that neither side was entitled to close (well-formed frames only, no body stalled for five
+  -- read deadlines: Rx theorems) is still open at quiescence …
+  | ["alive", _] => (s, "open")
+  -- … and every probe request sent then gets its own answer
+  | ["probes", n] => (s, n)
   | _ => (s, "bad-op")
 
 end Driver.C01
